@@ -175,3 +175,74 @@ Theorem C03_every_run_is_accepted_by_the_trace_matcher : forall p lbs ubs f hk n
              accepts (length (pop x)) n_iter true p tr = true /\
              accepts (length (pop x)) n_iter false p (filter (fun e => negb (oev_eqb e OR)) tr) = true.
 Proof. exact run_accepted. Qed.
+
+(* ------------------------------------------------------------------ histories of tasks on one space
+   The three theorems above hold from EVERY start state, so they hold of every task of every finite history of tasks on
+   one space -- each task with its own optimizer, objective, hook (keeping the population size), iteration count, draw
+   stream and freshly created run-local arrays (Analysis/Tasks.v): in every task the hook is called n+1 times, there are n
+   records (the iteration-end states, the last one being the state the task leaves), every hook call is followed at once
+   by the sweep over the state the hook left, and the task spends at most its budget; the population size of the space
+   never changes over the whole history. *)
+From OV Require Import Analysis.Tasks.
+
+Definition c03_task_ok (k : sweep_kind) (t : task) : Prop :=
+  c03_check k (tp t) = true /\ (forall x, length (pop (thk t x)) = length (pop x)).
+
+Definition c03_task_claim (lbs ubs : list Z) (k : sweep_kind) (t : task) (r : trec) : Prop :=
+  let '(xs, evs, xe) := r in
+  cnt KHook evs = 1 + tn t /\
+  cnt KDump evs = tn t /\
+  (exists ds, length ds = tn t /\ dumps_of evs = ds /\ (tn t > 0 -> last ds xs = xe)) /\
+  (forall e1 y e2, evs = e1 ++ EvHook y :: e2 ->
+     exists cs e3, sweep_args lbs ubs k y = Some cs /\ length cs = length (pop y) /\ e2 = evals_of (tf t) cs ++ e3) /\
+  (forall c, cmaxl KEval (tp t) = Some c -> cnt KEval evs <= pv c (length (pop xs)) (tn t)) /\
+  length (pop xe) = length (pop xs).
+
+Theorem C03_task_histories :
+  forall lbs ubs okc k ts x0 rs x', Forall (c03_task_ok k) ts -> thist lbs ubs okc ts x0 rs x' ->
+    Forall2 (c03_task_claim lbs ubs k) ts rs /\ length (pop x') = length (pop x0).
+Proof.
+  intros lbs ubs okc k ts x0 rs x' HQ Ht.
+  destruct (thist_inv lbs ubs okc (fun x => length (pop x) = length (pop x0)) (c03_task_ok k) (c03_task_claim lbs ubs k)) with (ts := ts) (x0 := x0) (rs := rs) (x' := x') as [A B]; try assumption; try reflexivity.
+  - intros x lc H. exact H.
+  - intros t xs x1 evs o1 [Hc Hlen] HI Hr.
+    destruct (C03_iterations_hooks_sweeps k (tp t) Hc lbs ubs (tf t) (thk t) (tn t) okc Hlen (tor t) xs x1 evs o1 Hr) as (A1 & A2 & A3 & A4).
+    assert (L : length (pop x1) = length (pop xs)) by exact (exec_len lbs ubs (tf t) (thk t) (tn t) okc Hlen (tp t) None (tor t) xs x1 evs o1 Hr).
+    split; [|congruence].
+    unfold c03_task_claim. split; [exact A1|split; [exact A2|split; [exact A3|split; [exact A4|split; [|exact L]]]]].
+    intros c Hcm. exact (proj1 (C03_evaluation_budget (tp t) c Hcm lbs ubs (tf t) (thk t) (tn t) okc Hlen (tor t) xs x1 evs o1 Hr)).
+  - split; assumption.
+Qed.
+
+(* non-vacuity: a history of two PSO tasks with different iteration counts and objectives on a two-agent space *)
+Definition h_ag (k : Z) (i : nat) : agent := {| apos := [[Some k]]; aid := i; afit := KMAX |}.
+Definition h_zero : contents := [[Some 0%Z]].
+Definition h_x0 : st :=
+  {| pop := [h_ag 3 0; h_ag 7 1]; best := {| apos := h_zero; aid := 2; afit := KMAX |};
+     tr := {| apos := h_zero; aid := 3; afit := KMAX |}; sh := []; loc := [h_zero; h_zero];
+     tmp := 0%Z; idx := []; next := 4; hyp := []; tv := []; btv := h_zero |}.
+Definition h_f1 (c : contents) : Z := match c with [[Some k]] => k | _ => 0%Z end.
+Definition h_f2 (c : contents) : Z := match c with [[Some k]] => (- k)%Z | _ => 0%Z end.
+Definition h_t1 : task :=
+  {| tp := prog_PSO; tf := h_f1; thk := fun x => x; tn := 1; tlc := [h_zero; h_zero];
+     tor := [ACont [[Some 12%Z]]; ACont [[Some (-5)%Z]]] |}.
+Definition h_t2 : task :=
+  {| tp := prog_PSO; tf := h_f2; thk := fun x => x; tn := 2; tlc := [h_zero; h_zero];
+     tor := [ACont [[Some 1%Z]]; ACont [[Some 2%Z]]; ACont [[Some 4%Z]]; ACont [[Some 6%Z]]] |}.
+
+Example C03_nonvacuous_two_tasks :
+  Forall (c03_task_ok KPso) [h_t1; h_t2] /\
+  exists rs x', thist [0%Z] [10%Z] okc_std [h_t1; h_t2] h_x0 rs x' /\
+                map (fun r => cnt KHook (snd (fst r))) rs = [2; 3] /\ map (fun r => cnt KEval (snd (fst r))) rs = [4; 6].
+Proof.
+  split.
+  - repeat constructor; vm_compute; reflexivity.
+  - destruct (run [0%Z] [10%Z] h_f1 (fun x => x) 1 okc_std prog_PSO (tor h_t1) (with_loc h_x0 (tlc h_t1))) as [[[x1 e1] o1]|] eqn:E1;
+      [|vm_compute in E1; discriminate].
+    destruct (run [0%Z] [10%Z] h_f2 (fun x => x) 2 okc_std prog_PSO (tor h_t2) (with_loc x1 (tlc h_t2))) as [[[x2 e2] o2]|] eqn:E2;
+      [|vm_compute in E1; injection E1 as <- _ _; vm_compute in E2; discriminate].
+    eexists; exists x2. split; [|split].
+    + eapply thist_cons; [exact E1|]. eapply thist_cons; [exact E2|apply thist_nil].
+    + vm_compute in E1. injection E1 as <- <- _. vm_compute in E2. injection E2 as _ <- _. reflexivity.
+    + vm_compute in E1. injection E1 as <- <- _. vm_compute in E2. injection E2 as _ <- _. reflexivity.
+Qed.
